@@ -29,4 +29,20 @@ META = {
                 "configurations and 20 of 27 depth-2 roots; thorough = all 8 configurations and all roots. The header matrix is a compile check, "
                 "not an exploration; it is a precondition for the comparison, reported separately in the evidence.",
     },
+    "C14": {
+        "text": "io_epoll_context runs unmodified over a simulated kernel (kit/ksim: epoll, eventfd, timerfd, byte-capacity pipes, "
+                "virtual clock) reached through link-time --wrap seams, so readiness order, wake-ups, timer expiry, short transfers and "
+                "failing syscalls are all scheduler choices.  Every interleaving up to the preemption bound of the I/O thread with remote "
+                "producers, stop requesters and the other end of the pipe is executed for: remote scheduling vs the idle/wake-up protocol, "
+                "run(stop_token), timers cancelled remotely / locally / at the due time, pipe reads and writes of all size relations, "
+                "cancellation before start / while parked / racing readiness followed by re-use of the descriptor, descriptor-number reuse, "
+                "and injected errno on the n-th readv/writev.  Operations and buffers live on the heap and are freed at completion (ASan + "
+                "a direct check that no epoll registration points into a completed operation); descriptors must be closed exactly once.  "
+                "The simulated kernel is itself checked against the real kernel on every operation sequence up to depth 5 (ksim_conf).",
+        "technique": "stateless model checking of the implementation (preemption-bounded exhaustive schedule enumeration) over a simulated kernel "
+                     "bound to the real one by an exhaustive conformance enumeration",
+        "note": "io_uring_context: see DESIGN.md (ring simulator).  Pipe capacity is counted in bytes (the real kernel counts page slots); "
+                "conformance is established for whole-page transfers.  Two concurrent operations of the same kind on one descriptor are not "
+                "driven (the context documents one registration per descriptor).",
+    },
 }
